@@ -1171,10 +1171,10 @@ def extra_C15(ctx, t_end):
 EXTRAS = {
     'C02': [_api(extra_C02, 9)],
     'C03': [_api(extra_C03, 8)],
-    'C08': [_api(extra_C08, 7)],
+    'C08': [_api(extra_C08, 5)],
     'C10': [_api(extra_C10, 9)],
     'C11': [_api(extra_C11, 5)],
     'C14': [_api(extra_C14, 7)],
-    'C15': [_api(extra_C15, 8)],
+    'C15': [_api(extra_C15, 5)],
     'C18': [_api(extra_C18, 6)],
 }
